@@ -1,4 +1,5 @@
 import asyncio
+import math
 import sys
 
 from klongpy.core import KGCall, KGFn, KGFnWrapper
@@ -24,14 +25,18 @@ class KGTimerHandler:
 def _call_periodic(loop: asyncio.BaseEventLoop, name, interval, callback):
     start = loop.time()
 
-    def run(handle, fn=callback):
+    def run(handle, n=1, fn=callback):
         r = fn()
         # the callback may have cancelled this timer itself (.timerc from inside): stay stopped
         if r and handle.delegate is not None:
             if interval == 0:
                 handle.delegate = loop.call_soon(run, handle)
             else:
-                handle.delegate = loop.call_later(interval - ((loop.time() - start) % interval), run, handle)
+                # next boundary start + n*interval strictly after now, and never the boundary just
+                # served: the loop may dispatch within its clock resolution before the deadline and
+                # (now - start) % interval may round to just below interval on a boundary
+                n = max(n + 1, math.floor((loop.time() - start) / interval + 1e-9) + 1)
+                handle.delegate = loop.call_at(start + n * interval, run, handle, n)
         else:
             handle.cancel()
 
